@@ -98,7 +98,8 @@ impl Tr {
         // integer and real powers go through x^(n-3) * x * x * x and a repeated-squaring powi:
         // charge the extra roundings
         let extra = match f {
-            Func::Powi(n) => 2.0 + (n.unsigned_abs().max(1) as f64).log2(),
+            // repeated squaring doubles the accumulated relative error at every step: ~|n| u / 2
+            Func::Powi(n) => 2.0 + (n.unsigned_abs().max(1) as f64).log2() + n.unsigned_abs() as f64 / 8.0,
             Func::Powf(_) => 2.0,
             _ => 1.0,
         };
